@@ -82,6 +82,7 @@ func plan(tier string, seed int64) []driver.Case {
 		}
 	}
 	cases = append(cases, sharedPlan(tier)...)
+	cases = append(cases, twicePlan(tier)...)
 	return cases
 }
 
@@ -93,7 +94,13 @@ type params struct {
 	w                       time.Duration
 }
 
-func keyName(i int) string { return "k" + strconv.Itoa(i) }
+// keyName: the fourth key is the empty string - a key like any other for the limiter.
+func keyName(i int) string {
+	if i == 3 {
+		return ""
+	}
+	return "k" + strconv.Itoa(i)
+}
 
 // buildSteps derives the arrival timeline from the case's PRNG.
 func buildSteps(rng *rand.Rand, p params) []step {
@@ -412,6 +419,9 @@ func runAlone(p params, em []emission) ([]int, bool) {
 func runCase(c driver.Case) driver.Result {
 	if c.Get("kind") == "shared" {
 		return runShared(c)
+	}
+	if c.Get("kind") == "twice" {
+		return runTwice(c)
 	}
 	rec.ResetHooks()
 	hookReset()
